@@ -34,7 +34,7 @@ Nothing here is clever on purpose: it is the oracle.
 """
 import re
 
-__all__ = ["tokenize", "Screen", "replay", "plain_ops", "BLANK"]
+__all__ = ["tokenize", "Screen", "replay", "plain_ops", "BLANK", "wcwidth", "cell_len", "crop_cells"]
 
 BLANK = (" ", (), None)
 
@@ -140,6 +140,35 @@ def plain_ops(tokens):
         else:
             out.append(t)
     return out
+
+
+def wcwidth(ch):
+    """Cells a character occupies, from the Unicode East Asian Width property (independent of rich's own
+    table): Wide / Fullwidth -> 2, combining marks -> 0, everything else 1."""
+    import unicodedata
+
+    if unicodedata.combining(ch):
+        return 0
+    return 2 if unicodedata.east_asian_width(ch) in ("W", "F") else 1
+
+
+def cell_len(s, width_fn=wcwidth):
+    return sum(width_fn(c) for c in s)
+
+
+def crop_cells(s, w, width_fn=wcwidth):
+    """`s` cut to exactly `w` cells when it is wider: whole characters while they fit; a double-width
+    character that would straddle the edge becomes one space."""
+    if cell_len(s, width_fn) <= w:
+        return s
+    out, n = [], 0
+    for c in s:
+        cw = width_fn(c)
+        if n + cw > w:
+            break
+        out.append(c)
+        n += cw
+    return "".join(out) + " " * (w - n)
 
 
 class Screen:
